@@ -25,7 +25,7 @@ ASSUMPTIONS = [
 ]
 UNIT_TIMEOUT = {"quick": 150, "thorough": 2400}
 
-PROFILE = gen.profile(
+PROFILE_KW = dict(
     struct_depth_choices=[1, 2, 2, 3, 4],
     p_shared=0.7,
     p_item_fault=0.03,
@@ -38,6 +38,10 @@ PROFILE = gen.profile(
     p_try_raise=0.3,
     kinds=3,
 )
+PROFILE = gen.profile(**PROFILE_KW)
+# the same, with flush bodies that themselves call asynq synchronously (a service that needs another service);
+# no direct item.value() here (see DESIGN 9.2 on that combination)
+PROFILE_NS = gen.profile(**dict(PROFILE_KW, p_nestedsync=0.12, w_stmt=dict(raise_=0.15, orphan=0.8, syncitem=0)))
 MONITORS = ("resume", "afterdone", "order", "orphans", "completion", "refeq")
 HOWS = ["call", "value", "yielded", "yielded_value"]
 
@@ -77,7 +81,7 @@ def run_unit(unit, progress):
     for i in range(a, b):
         progress(i)
         cs = tl.case_seed(unit["seed"], ID, i)
-        prog = gen.generate(cs, PROFILE)
+        prog = gen.generate(cs, PROFILE_NS if i % 5 == 3 else PROFILE)
         rnd = random.Random(cs ^ 0xC03)
         try:
             exp_rrt = ref.evaluate(prog)
